@@ -136,4 +136,35 @@ def insertBeforeEnd (ins : Name → List Tok) : List Tok → List Tok
   | .stop n :: ts => ins n ++ .stop n :: insertBeforeEnd ins ts
   | t :: ts => t :: insertBeforeEnd ins ts
 
+/-! ### `receipts.Request` (round E): a stateful inserter
+
+Hands every token through and writes `<request xmlns='urn:xmpp:receipts'/>` before the end tag
+of every message, unless the message has `type='error'` (first attribute with the local name
+`type`) or an element `{urn:xmpp:receipts}receipt` was seen since the message's start tag
+(the flag is also set by such an element outside any message and reset by every message end). -/
+
+def nsReceipts : String := "urn:xmpp:receipts"
+
+def isMessage (n : Name) : Bool :=
+  n.loc = "message" && (n.space = "jabber:client" || n.space = "jabber:server")
+
+def requestEl : List Tok := [.start ⟨nsReceipts, "request"⟩ [], .stop ⟨nsReceipts, "request"⟩]
+
+def request : Bool → List Tok → List Tok
+  | _, [] => []
+  | nw, .start n as :: ts =>
+    let nw' :=
+      if n.loc = "receipt" && n.space = nsReceipts then true
+      else if isMessage n then
+        match as.find? (·.name.loc = "type") with
+        | some a => decide (a.value = "error")
+        | none => false
+      else nw
+    .start n as :: request nw' ts
+  | nw, .stop n :: ts =>
+    if isMessage n then
+      (if nw then [] else requestEl) ++ .stop n :: request false ts
+    else .stop n :: request nw ts
+  | nw, t :: ts => t :: request nw ts
+
 end XmppModel.Unwrap
